@@ -306,14 +306,12 @@ def mon_trace(tid, rec, cfg, fair, ended):
             'ended': bool(ended)}
 
 
-def run_monitor(cfg, traces, label='mon', workers=4):
-    """traces: list of mon_trace dicts (same cfg). Returns (failures, terminals) lists of dicts {t, s, f}."""
+def run_monitor(cfg, traces, label='mon', workers=4, chunk=120):
+    """traces: list of mon_trace dicts (same cfg). Returns (failures, terminals, last TLC result): lists of dicts
+    {t, s, f}. Large sets are judged chunk by chunk (bounded JSON size / TLC heap; ids are the traces' own)."""
     if not traces:
-        return [], []
+        return [], [], None
     sc = vlib.scratch()
-    tf = os.path.join(sc, f'{label}_{cfg.name}.json')
-    with open(tf, 'w') as f:
-        json.dump(traces, f)
     cp = os.path.join(sc, f'{label}_{cfg.name}.cfg')
     with open(cp, 'w') as f:
         f.write('\n'.join(['SPECIFICATION Spec', 'CONSTANTS', f'  N = {cfg.n}',
@@ -321,13 +319,26 @@ def run_monitor(cfg, traces, label='mon', workers=4):
                            f'  AutoFence = {"TRUE" if cfg.auto_fence else "FALSE"}',
                            f'  FailStrat = "{cfg.eff_fail}"', f'  T = {cfg.t}',
                            f'  Mismatch = {cfg.tla_set(cfg.mismatch)}']) + '\n')
-    r = vlib.run_tlc('ClusterMon', cp, workers=workers, env={'TRACE_FILE': tf}, timeout=3000, heap='6g')
-    if not r.ok:
-        raise MachineryFailure(f'ClusterMon {cfg.name}: rc={r.rc} timed_out={r.timed_out} {r.error_text[:3000] or r.stdout[-1500:]}')
-    done = {int(json.loads(l)[2:]) for l in r.stdout.splitlines() if l.startswith('"D ')}
-    if done != {t['id'] for t in traces}:
-        raise MachineryFailure(f'ClusterMon {cfg.name}: {len(done)} traces completed out of {len(traces)}')
-    return vlib.tlc_prints(r.stdout, 'V '), vlib.tlc_prints(r.stdout, 'E '), r
+    V, E, r = [], [], None
+    many = len(traces) > chunk
+    for lo in range(0, len(traces), chunk):
+        part = traces[lo:lo + chunk]
+        tf = os.path.join(sc, f'{label}_{cfg.name}_{lo}.json')
+        with open(tf, 'w') as f:
+            json.dump(part, f)
+        r = vlib.run_tlc('ClusterMon', cp, workers=8 if many else workers, env={'TRACE_FILE': tf}, timeout=3000,
+                         heap='6g')
+        if many:
+            os.unlink(tf)
+        if not r.ok:
+            raise MachineryFailure(f'ClusterMon {cfg.name}: rc={r.rc} timed_out={r.timed_out} '
+                                   f'{r.error_text[:3000] or r.stdout[-1500:]}')
+        done = {int(json.loads(l)[2:]) for l in r.stdout.splitlines() if l.startswith('"D ')}
+        if done != {t['id'] for t in part}:
+            raise MachineryFailure(f'ClusterMon {cfg.name}: {len(done)} traces completed out of {len(part)}')
+        V += vlib.tlc_prints(r.stdout, 'V ')
+        E += vlib.tlc_prints(r.stdout, 'E ')
+    return V, E, r
 
 
 # ---------------------------------------------------------------------------------------------------------------
